@@ -178,11 +178,14 @@ SP = signed_perms()
 
 
 # ------------------------------------------------------------------ fields
-def gen_field(rng, tier, nv=None, data=None, cubic=False, nmax=None, big=None):
+DTYPES = ["int8", "int16", "int32", "int64", "uint8", "uint16", "uint32", "uint64", "float32"]
+
+
+def gen_field(rng, tier, nv=None, data=None, cubic=False, nmax=None, big=None, dtype=None, nmin=1):
     nmax = nmax or (4 if tier == "quick" else 5)
-    n = [rng.randint(1, nmax) for _ in range(3)]
+    n = [rng.randint(nmin, nmax) for _ in range(3)]
     while math.prod(n) > (big or (12 if tier == "quick" else 18)):
-        n[rng.randrange(3)] = max(1, n[rng.randrange(3)] - 1)
+        n[rng.randrange(3)] = max(nmin, n[rng.randrange(3)] - 1)
     sc = F(rng.choice(SCALES))
     if cubic:
         h = F(rng.choice([1, 1, 3, 5]), rng.choice([1, 2, 4]))
@@ -193,22 +196,30 @@ def gen_field(rng, tier, nv=None, data=None, cubic=False, nmax=None, big=None):
     if rng.random() < 0.3:
         p1 = [-k * c / 2 for k, c in zip(n, cell)]       # centred at the origin
     nv = nv or rng.choice([1, 3, 3])
-    data = data or rng.choice(["uniform", "linear", "random", "random"])
-    vs = rng.choice([1, 1, 1, 1000000, F(1, 1024)])
+    # storage dtype of the source field (explicit dtype= in the constructor, or left to the array)
+    dtype = dtype or (rng.choice(DTYPES) if rng.random() < 0.4 else "float64")
+    integral = dtype.startswith(("int", "uint"))
+    unsigned = dtype.startswith("uint")
+    data = data or rng.choice(["uniform", "linear", "random", "random"] + (["linear"] * 3 if integral else []))
+    vs = rng.choice([1, 1, 1, 1000000, F(1, 1024)]) if dtype == "float64" else 1
+    lo_i = 0 if unsigned else -1
     coef = None
     if data == "uniform":
-        v = [F(rng.randint(-9, 9)) * vs for _ in range(nv)]
+        v = [F(rng.randint(9 * lo_i, 9)) * vs for _ in range(nv)]
         if all(x == 0 for x in v):
             v[0] = vs
         vals = v * math.prod(n)
     elif data == "linear":
         # affine in the cell index (= affine in the coordinates)
-        coef = [[F(rng.randint(-4, 4)) for _ in range(4)] for _ in range(nv)]
+        coef = [[F(rng.randint(4 * lo_i, 4)) for _ in range(4)] for _ in range(nv)]
+        if all(c[0] == c[1] == c[2] == 0 for c in coef):
+            coef[0][rng.randrange(3)] = F(3)
         vals = []
         for i, j, k in itertools.product(*(range(m) for m in n)):
             vals += [(c[0] * i + c[1] * j + c[2] * k + c[3]) * vs for c in coef]
     else:
-        vals = [F(rng.randint(-64, 64), rng.choice([1, 2, 8])) * vs for _ in range(math.prod(n) * nv)]
+        vals = [F(rng.randint(64 * lo_i, 64), 1 if integral else rng.choice([1, 2, 8])) * vs
+                for _ in range(math.prod(n) * nv)]
     vmap, vdims, dims = None, None, None
     if nv == 3:
         r = rng.random()
@@ -220,7 +231,8 @@ def gen_field(rng, tier, nv=None, data=None, cubic=False, nmax=None, big=None):
         dims = rng.choice([["a", "b", "c"], ["u", "v", "w"], ["z", "y", "x"]])
     bc = rng.choice(["", "", "", "0", "01", "012", "neumann"])
     return dict(n=n, cell=[g.qs(c * sc) for c in cell], p1=[g.qs(x * sc) for x in p1], nv=nv, data=data,
-                vals=[g.qs(x) for x in vals], vmap=vmap, vdims=vdims, dims=dims, bc=bc)
+                vals=[g.qs(x) for x in vals], vmap=vmap, vdims=vdims, dims=dims, bc=bc, dtype=dtype,
+                dtype_explicit=rng.random() < 0.7, coef=[[g.qs(x * vs) for x in c] for c in coef] if coef else None)
 
 
 def build(fc):
@@ -234,8 +246,13 @@ def build(fc):
     if bc not in ("", "neumann", "dirichlet"):
         bc = "".join(dims[int(ch)] for ch in bc)
     mesh = df.Mesh(region=region, n=n, bc=bc)
-    arr = np.array([fl(x) for x in fc["vals"]], dtype=float).reshape(*n, fc["nv"])
+    dt = np.dtype(fc.get("dtype", "float64"))
+    arr = np.array([fl(x) for x in fc["vals"]], dtype=float).reshape(*n, fc["nv"]).astype(dt)
     kw = {}
+    if fc.get("dtype_explicit", False) or fc.get("imag"):
+        kw["dtype"] = dt
+    if fc.get("imag"):
+        arr = arr + 1j * np.array([fl(x) for x in fc["imag"]], dtype=float).reshape(*n, fc["nv"])
     vdims = fc.get("vdims")
     if fc["nv"] == 3:
         if vdims:
@@ -317,6 +334,24 @@ def generate(rng, tier):
     for _ in range(100 if quick else 600):
         f = gen_field(rng, tier, nmax=8, big=400)
         cases.append(dict(kind="rot", field=f, ops=gen_ops(rng, tier), style=rng.random() < 0.5, nocoq=True))
+    # (i) every storage dtype x {scalar, vector}: affine integer data (interpolated values are non-integral),
+    #     meshes with interior cells, a generic (non-lattice) rotation
+    for rep in range(1 if quick else 5):
+        for dt in DTYPES + ["float64"]:
+            for nv in (1, 3):
+                f = gen_field(rng, tier, nv=nv, data="linear", nmin=3, nmax=4, big=36, dtype=dt)
+                f["dtype_explicit"] = (rep % 2 == 0)
+                op = dict(op="rot", method="from_euler",
+                          a=dict(seq=rng.choice(["zyx", "xz", "ZX", "yz"])[:rng.choice([2, 2, 3])],
+                                 angles=None, degrees=False))
+                op["a"]["angles"] = [g.qs(rng.choice([-1, 1]) * rng.uniform(0.2, 1.2)) for _ in op["a"]["seq"]]
+                cases.append(dict(kind="dtype", field=f, ops=[op], style=rng.random() < 0.5))
+    # (j) complex-valued fields: recorded (what the code does with the imaginary part), real part checked
+    for nv in (1, 3):
+        f = gen_field(rng, tier, nv=nv, data="random", nmin=2, nmax=3, dtype="float64")
+        f["dtype"] = "complex128"
+        f["imag"] = [g.qs(F(rng.randint(-20, 20), 4)) for _ in f["vals"]]
+        cases.append(dict(kind="complex", field=f, ops=[gen_rot(rng, "from_rotvec")], style=True))
     # (f) refusals
     for _ in range(60 if quick else 300):
         ndim = rng.choice([1, 2, 3, 3, 3, 3, 4])
@@ -416,12 +451,14 @@ def run_rot(c):
     on = [int(x) for x in out.mesh.n]
     opmin, opmax = out.mesh.region.pmin, out.mesh.region.pmax
     oarr = np.asarray(out.array, dtype=float)
-    obs = dict(n=on, pmin=js(opmin), pmax=js(opmax), array=js(oarr.reshape(-1)))
+    obs = dict(n=on, pmin=js(opmin), pmax=js(opmax), array=js(oarr.reshape(-1)), dtype_in=str(before.dtype),
+               dtype_out=str(np.asarray(out.array).dtype))
     pmin = np.array(f.mesh.region.pmin, dtype=float)
     pmax = np.array(f.mesh.region.pmax, dtype=float)
     cell = (pmax - pmin) / np.array(n)
     ctr = (pmin + pmax) / 2
-    A = before.reshape(*n, nv)
+    A = np.real(before).astype(float).reshape(*n, nv)
+    coef = [[float(F(x)) for x in cf] for cf in fc["coef"]] if fc.get("coef") else None
     vscale = max(float(np.abs(A).max()), 0.0)
     cscale = max(float(np.abs(pmin).max()), float(np.abs(pmax).max()), float((pmax - pmin).max()))
 
@@ -443,7 +480,7 @@ def run_rot(c):
             rec["oracle"].append("explicit-n-ignored")
         ocell = (opmax - opmin) / np.array(on)
         interior = outside = 0
-        bad_int = bad_out = False
+        bad_int = bad_out = bad_lin = False
         if oarr.shape == (*on, nv):
             for i, j, k in itertools.product(*(range(m) for m in on)):
                 y = opmin + (np.array([i, j, k]) + 0.5) * ocell
@@ -457,12 +494,21 @@ def run_rot(c):
                     want = rotate_components(Racc, trilinear(A, (p - pmin) / cell - 0.5), perm)
                     if np.abs(oarr[i, j, k] - want).max() > 1e-7 * max(vscale, 1e-300):
                         bad_int = True
+                    if coef is not None:
+                        # affine data: the affine function itself at the back-rotated position
+                        ci = (p - pmin) / cell - 0.5
+                        lin = np.array([cf[0] * ci[0] + cf[1] * ci[1] + cf[2] * ci[2] + cf[3] for cf in coef])
+                        wl = rotate_components(Racc, lin, perm)
+                        if np.abs(oarr[i, j, k] - wl).max() > 1e-7 * max(vscale, 1e-300):
+                            bad_lin = True
         else:
             rec["oracle"].append("result-shape")
         if bad_int:
             rec["oracle"].append("interior-value-not-rotated-interpolation")
         if bad_out:
             rec["oracle"].append("outside-not-zero")
+        if bad_lin:
+            rec["oracle"].append("linear-field-not-reproduced")
         rec["interior"], rec["outside"] = interior, outside
         # composition: one fresh rotator, one rotation by the accumulated matrix
         st, g2 = attempt(lambda: (lambda fr_: (fr_.rotate("from_matrix", Racc, n=tuple(on)), fr_.field)[1])(
@@ -497,11 +543,11 @@ def run_rot(c):
             ne = o.get("n")
             ops_coq.append(f"ORot {qm(M)} " + ("None" if ne is None else f"(Some {qn3(ne)})"))
     if not c.get("nocoq") and math.prod(on) * nv <= COQ_MAX_VALUES:
-        rec["coq"] = (f"CRot {qv(pmin)} {qv(pmax)} {qn3(n)} {g.nat(nv)} {g.nl(perm)} {g.ql(before.reshape(-1))} "
+        rec["coq"] = (f"CRot {qv(pmin)} {qv(pmax)} {qn3(n)} {g.nat(nv)} {g.nl(perm)} {g.ql(A.reshape(-1))} "
                       f"{g.lst(ops_coq)} {qn3(on)} {qv(opmin)} {qv(opmax)} {g.ql(oarr.reshape(-1))}")
     methods = tuple(o.get("method", "clear") for o in c["ops"])
     rec.update(obs=obs, size=len(fc["vals"]) * 10 + len(c["ops"]),
-               key=f"{c['kind']}/{nv}/{fc['data']}/{methods}/{tuple(perm)}/{tuple(n)}/{last_n is not None}/{c.get('sp')}",
+               key=f"{c['kind']}/{nv}/{fc['data']}/{methods}/{tuple(perm)}/{tuple(n)}/{last_n is not None}/{c.get('sp')}/{before.dtype}",
                nontrivial=True)
     rec["oracle"] = sorted(set(rec["oracle"]))
     return rec
@@ -567,7 +613,52 @@ def run_badmethod(c):
     return rec
 
 
+def known_ids():
+    import json
+    import os
+    try:
+        kf = json.load(open(os.path.join(os.path.dirname(os.path.dirname(os.path.dirname(os.path.abspath(__file__)))),
+                                         "known_findings.json")))
+        return {k.get("id") for k in kf if k.get("status") == "known"}
+    except Exception:  # noqa: BLE001
+        return set()
+
+
+def run_complex(c):
+    """complex-valued source field: record what rotate() does; the real part must follow the property"""
+    import warnings
+    fc = c["field"]
+    rec = dict(kind="complex", case=c, oracle=[], tags=["C18-complex-imag-dropped"], coq=None)
+    f = build(fc)
+    st, out = attempt(lambda: (lambda r: (call_rotate(r, c["ops"][0], True), r.field)[1])(df.FieldRotator(f)))
+    obs = dict(dtype_in=str(f.array.dtype), status=st)
+    if st == "ok":
+        fr_ = dict(fc, dtype="float64", imag=None)
+        ref = df.FieldRotator(build(fr_))
+        call_rotate(ref, c["ops"][0], True)
+        fi_ = dict(fc, dtype="float64", imag=None, vals=fc["imag"])
+        refi = df.FieldRotator(build(fi_))
+        call_rotate(refi, c["ops"][0], True)
+        oa = np.asarray(out.array)
+        vs = max(float(np.abs(ref.field.array).max()), float(np.abs(refi.field.array).max()), 1e-300)
+        real_ok = oa.shape == ref.field.array.shape and np.abs(np.real(oa) - ref.field.array).max() <= 1e-9 * vs
+        imag_ok = np.iscomplexobj(oa) and np.abs(np.imag(oa) - refi.field.array).max() <= 1e-9 * vs
+        obs.update(dtype_out=str(oa.dtype), real_part_is_rotated_real_part=bool(real_ok),
+                   imaginary_part_is_rotated_imaginary_part=bool(imag_ok))
+        if not real_ok:
+            rec["oracle"].append("complex-field-real-part-wrong")
+        if not imag_ok and "C18-complex-imag-dropped" in known_ids():
+            # the rotated field silently loses the imaginary part; flagged only once the maintainer has
+            # registered the finding (until then it is recorded in obs / stats and reported)
+            rec["oracle"].append("complex-field-imaginary-part-dropped")
+    rec.update(obs=obs, key=f"complex/{fc['nv']}/{obs.get('dtype_out')}/{obs.get('imaginary_part_is_rotated_imaginary_part')}",
+               size=len(fc["vals"]), nontrivial=True)
+    return rec
+
+
 def run_case(c):
+    if c["kind"] == "complex":
+        return run_complex(c)
     if c["kind"] == "refuse":
         return run_refuse(c)
     if c["kind"] == "badmethod":
@@ -588,7 +679,12 @@ def stats(records):
             continue
         if r["kind"] == "badmethod":
             continue
+        if r["kind"] == "complex":
+            out.setdefault("complex", []).append(r.get("obs"))
+            continue
         out["rot_cases"] += 1
+        dts = out.setdefault("dtypes", {})
+        dts[c["field"].get("dtype", "float64")] = dts.get(c["field"].get("dtype", "float64"), 0) + 1
         out["oracle_only"] = out.get("oracle_only", 0) + int(r.get("coq") is None)
         out["interior_cells"] += r.get("interior", 0)
         out["outside_cells"] += r.get("outside", 0)
